@@ -519,8 +519,8 @@ def run_variant(trace, res, with_observers, tag, stepbase=0, checks=True):
                         continue
                     else:
                         comp.add(a["name"], value, parameters=_params(a["params"]) or None)
-                        if a["vk"].startswith(("dtlist", "datelist")):
-                            m.setdefault("lists", {}).setdefault(U, []).append(",".join(_wall_text(x) for x in a["v"][1]))
+                        if a["vk"].startswith(("dtlist", "datelist")) and m.setdefault("lists", {}).get(U, []) is not None:
+                            m["lists"].setdefault(U, []).append(",".join(_wall_text(x) for x in a["v"][1]))
                         n = len(value) if isinstance(value, list) and U not in ("RDATE", "EXDATE", "CATEGORIES") else 1
                         m["names"].setdefault(U, []).extend([_marker_of(a)] * n)
                 if checks:
@@ -594,7 +594,8 @@ def run_variant(trace, res, with_observers, tag, stepbase=0, checks=True):
                 else:
                     res.skipped += 1
                     continue
-                m.get("lists", {}).pop(a["name"], None)
+                if a["name"] in m.get("lists", {}):
+                    m["lists"][a["name"]] = None       # entry texts of this name are no longer predicted
                 if checks:
                     res.probe("value_payload_mutated_in_place")
             elif op == "del_prop":
@@ -864,6 +865,8 @@ def _check_wire(res, stepno, bs, bu, B):
                                 f"component {cid} ({m['kind']}): wire {wire_names!r} want {want!r}")
                 # entries of list-valued properties in the order given
                 for U, texts in m.get("lists", {}).items():
+                    if texts is None:
+                        continue
                     got = [val for n, val in node[1] if n == U]
                     if got != texts:
                         res.violate("C10/value-order/list-entries", stepno,
